@@ -356,7 +356,22 @@ def run(run):
         pushes = [t for _, t in prog.calls(sb) if Program.callee_name(t).endswith("Vec::<T, A>::push")]
         nul = [t for t in pushes if is_const(ex.operand(t["args"][1]), 0)]
         chp = [t for t in pushes if mentions(ex.operand(t["args"][1]), lambda z: z[0] == "call" and re.search(r"Chars<'a> as core::iter::traits::iterator::Iterator>::next$", z[1])) and not is_const(ex.operand(t["args"][1]))]
-        if ok and len(nul) == 1 and chp:
+        # the expansion is unconditional: nothing but the loops themselves and `width()` being Some decides
+        # whether a character is pushed and whether its fillers follow
+        extra = []
+        for t in ([rng[0]] if len(rng) == 1 else []) + nul + chp:
+            bid = [b_ for b_, t_ in prog.calls(sb) if t_ is t][0]
+            for cond, tk, sw in guards(prog, sb, bid):
+                c = strip(cond)
+                loopish = c[0] == "discr" and mentions(c, lambda z: z[0] == "call" and re.search(
+                    r"Iterator>::next$|UnicodeWidthChar>::width$", z[1]))
+                if not loopish:
+                    extra.append((t, expr_str(c)[:100]))
+        if extra:
+            t, c = extra[0]
+            run.bad("C04.F4", "filler-conditional", where(t),
+                    "StringBuffer::from: the expansion of a character into its columns also depends on `%s`; a wide character for which the condition fails keeps one column and everything to its right is shifted" % c)
+        elif ok and len(nul) == 1 and chp:
             run.ok("C04.F4", "every character is pushed once, followed by NUL fillers for columns 1..width", where(rng[0]))
         else:
             run.bad("C04.F4", "filler-loop", where(prog.bodies[sb]), "StringBuffer::from: filler range 1..width=%s, NUL pushes=%d, char pushes=%d" % (ok, len(nul), len(chp)))
